@@ -49,11 +49,16 @@ Print Assumptions C04_conversion_items.
 (** Character-for-character equality fails as soon as [t] re-indents a body. *)
 Definition ex_tsp : node := Ingredient [PStr (s "salt")] (Some (mkQ (NInt 1) (Some (s "tsp")) (s " ") [])).
 
+(** the rendered body of the example, computed once *)
+Definition ex_tsp_body : str :=
+  Eval vm_compute in match render_cell_body ex_tsp (s "recipe-") with Ok (_, b) => b | Err _ => [] end.
+
 Theorem C04_cell_text_exact_refuted :
   exists v prefix cls body, val_ok prefix /\ render_cell_body v prefix = Ok (cls, body) /\
     visible_text (tokenize body) <> cell_amount_text v ++ cell_description_text v.
 Proof.
-  exists ex_tsp, (s "recipe-"). eexists. eexists. split; [vm_compute; reflexivity|]. split; [vm_compute; reflexivity|].
+  exists ex_tsp, (s "recipe-"), (s "rg-ingredient"), ex_tsp_body.
+  split; [vm_compute; reflexivity|]. split; [vm_compute; reflexivity|].
   vm_compute. discriminate.
 Qed.
 Print Assumptions C04_cell_text_exact_refuted.
@@ -61,7 +66,9 @@ Print Assumptions C04_cell_text_exact_refuted.
 (** ** Non-vacuity *)
 Example C04_ex_text :
   cell_amount_text ex_tsp ++ cell_description_text ex_tsp = s "1 tsp salt" /\
-  (exists cls body, render_cell_body ex_tsp (s "recipe-") = Ok (cls, body) /\
-     sq (visible_text (tokenize body)) = s "1tspsalt") /\
+  match render_cell_body ex_tsp (s "recipe-") with
+  | Ok (_, body) => sq (visible_text (tokenize body))
+  | Err _ => []
+  end = s "1tspsalt" /\
   num_text (s "1 3/4") = [49; 32; 51; 8260; 52]%N /\ prep_text (s " * ") = [32; 215; 32]%N.
-Proof. vm_compute. repeat split; try reflexivity. eexists. eexists. split; reflexivity. Qed.
+Proof. vm_compute. repeat split; reflexivity. Qed.
